@@ -94,4 +94,54 @@ theorem serZip_eq_docs (hl : LeafSer) : ∀ (cs : List Carrier) (ts : List CqlTy
     simp [acceptsZip, docLooseZip, ser_eq_docs hl c t hc.1, serZip_eq_docs hl cs ts hc.2]
 end
 
+mutual
+/-- **Every documented pair is accepted on write** (independent content: `docAccepts` is the strict
+documentation relation — sets only into sets, tuples of equal arity — not a copy of `accepts`), for every carrier
+type without a `MaybeEmpty` layer. -/
+theorem doc_imp_acc (hl : LeafSer) : ∀ (c : Carrier) (t : CqlTy), noME c = true → docAccepts c t = true →
+    accepts c t = true
+  | .scalar s, t, _, h => by cases t <;> simp_all [accepts, docAccepts, hl s]
+  | .unset, t, _, _ => by simp [accepts]
+  | .opt c, t, hn, h => by
+    rw [accepts]; rw [docAccepts] at h; exact doc_imp_acc hl c t (by simpa [noME] using hn) h
+  | .maybeUnset c, t, hn, h => by
+    rw [accepts]; rw [docAccepts] at h; exact doc_imp_acc hl c t (by simpa [noME] using hn) h
+  | .maybeEmpty c, t, hn, _ => by simp [noME] at hn
+  | .vec c, t, hn, h => by
+    have hn' : noME c = true := by simpa [noME] using hn
+    cases t <;> simp [docAccepts] at h <;> simp [accepts] <;> exact doc_imp_acc hl c _ hn' h
+  | .hashSet c, t, hn, h => by
+    have hn' : noME c = true := by simpa [noME] using hn
+    cases t <;> simp [docAccepts] at h <;> simp [accepts] <;> exact doc_imp_acc hl c _ hn' h
+  | .btreeSet c, t, hn, h => by
+    have hn' : noME c = true := by simpa [noME] using hn
+    cases t <;> simp [docAccepts] at h <;> simp [accepts] <;> exact doc_imp_acc hl c _ hn' h
+  | .hashMap k v, t, hn, h => by
+    have hn' : noME k = true ∧ noME v = true := by simpa [noME] using hn
+    cases t <;> simp [docAccepts] at h <;> simp [accepts]
+    exact ⟨doc_imp_acc hl k _ hn'.1 h.1, doc_imp_acc hl v _ hn'.2 h.2⟩
+  | .btreeMap k v, t, hn, h => by
+    have hn' : noME k = true ∧ noME v = true := by simpa [noME] using hn
+    cases t <;> simp [docAccepts] at h <;> simp [accepts]
+    exact ⟨doc_imp_acc hl k _ hn'.1 h.1, doc_imp_acc hl v _ hn'.2 h.2⟩
+  | .tuple cs, t, hn, h => by
+    have hn' : noMEs cs = true := by simpa [noME] using hn
+    cases t <;> simp [docAccepts] at h <;> simp [accepts]
+    exact ⟨by omega, docZ_imp_acc hl cs _ hn' h.2⟩
+  | .dyn, t, _, _ => by simp [accepts]
+  | .listIter _, _, _, h => by simp [docAccepts] at h
+  | .vecIter _, _, _, h => by simp [docAccepts] at h
+  | .mapIter _ _, _, _, h => by simp [docAccepts] at h
+  | .udtIter, _, _, h => by simp [docAccepts] at h
+  | .raw, _, _, h => by simp [docAccepts] at h
+theorem docZ_imp_acc (hl : LeafSer) : ∀ (cs : List Carrier) (ts : List CqlTy), noMEs cs = true →
+    docAcceptsZip cs ts = true → acceptsZip cs ts = true
+  | [], ts, _, _ => by simp [acceptsZip]
+  | c :: cs, [], _, _ => by simp [acceptsZip]
+  | c :: cs, t :: ts, hn, h => by
+    have hn' : noME c = true ∧ noMEs cs = true := by simpa [noMEs] using hn
+    simp [docAcceptsZip] at h
+    simp [acceptsZip]; exact ⟨doc_imp_acc hl c t hn'.1 h.1, docZ_imp_acc hl cs ts hn'.2 h.2⟩
+end
+
 end ScyllaVerif.Proofs.CarrierDocs
